@@ -19,7 +19,7 @@ From RU Require Import Base.Prelude Base.Utf8 Model.AsciiSet Gen.Tables Model.Pe
 From RU Require Base.Outcome_c15 Model.FormUrlencoded Model.Mime Model.DataUrl.
 From RU Require Proofs.C04_Inventory Proofs.C04_Table Proofs.C04_Cost Proofs.C04_CostAuth Proofs.C04_Utf8
   Proofs.C14_Enc Proofs.C14_Views Proofs.C14_Set Proofs.C15_Parse Proofs.C15_Ser Proofs.C15_Main Proofs.C17_Fragment
-  Proofs.C06_FragQuery Proofs.C02_Parts Proofs.C19_Pure.
+  Proofs.C06_FragQuery Proofs.C02_Parts Proofs.C02_SetScheme Proofs.C05_Sharp Proofs.C19_Pure.
 From RU Require Properties.C14 Properties.C19.
 
 (* ---------------------------------------------------------------- kinds *)
@@ -39,7 +39,7 @@ Definition kind2_eqb (a b : kind2) : bool :=
 Inductive claim2_id :=
 | Q_old (i : C04_Table.claim_id)
 | Q_to_u32 | Q_default_port | Q_aset_closed | Q_percent_decode | Q_parser_tail | Q_file_host
-| Q_frag_pe | Q_mime_get | Q_ser_new | Q_input.
+| Q_frag_pe | Q_mime_get | Q_ser_new | Q_input | Q_parse_scheme.
 
 Definition claim2_trivial (q : claim2_id) : bool :=
   match q with Q_old i => C04_Table.claim_eqb_trivial i | _ => false end.
@@ -114,6 +114,13 @@ Definition claim2 (q : claim2_id) : Prop :=
         /\ (inp_is_empty l = true <-> inp_next l = None)
         /\ (forall c r, inp_split_prefix_char c l = Some r -> usv_list r)
         /\ (forall p r, inp_split_prefix_str p l = Some r -> usv_list r)
+  | Q_parse_scheme =>
+      (* Parser::parse_scheme (model: Some (scheme, remaining) / None = Err(())): the scheme pushed to the serialization
+         starts with a lower-case letter and consists of a-z 0-9 + - . (ASCII), the remaining input is a suffix of the
+         input and a &str again.  The debug_assert!(self.serialization.is_empty()) of the Rust function is about the
+         caller (a fresh Parser at its three call sites) and is not part of the model *)
+      forall ctx l s r, usv_list l -> parse_scheme ctx l = Some (s, r) ->
+        C02_Parts.scheme_canon s = true /\ usv_list r /\ exists pre, l = pre ++ r
   end.
 
 (* ---------------------------------------------------------------- proofs of the new claims *)
@@ -254,6 +261,8 @@ Proof.
   - exact C19.C19_get.
   - exact ser_new_claim.
   - exact input_claim.
+  - intros ctx l s r Hl H. split; [exact (C02_SetScheme.parse_scheme_out_g ctx l s r H)|].
+    split; [exact (C05_Sharp.parse_scheme_rest ctx l s r Hl H) | exact (C02_Parts.parse_scheme_suffix ctx l s r H)].
 Qed.
 
 (* ---------------------------------------------------------------- the table *)
@@ -269,6 +278,7 @@ Definition overrides : list (string * string * claim2_id * string) := [
   ("url", "Input::new_trim_c0_control_and_space", Q_input, "C04_no_panic_inventory2 (claim Q_input)");
   ("url", "Input::is_empty", Q_input, "C04_no_panic_inventory2 (claim Q_input)");
   ("url", "Input::split_prefix", Q_input, "C04_no_panic_inventory2 (claim Q_input)");
+  ("url", "Parser::parse_scheme", Q_parse_scheme, "C04_no_panic_inventory2 (claim Q_parse_scheme)");
   ("url", "Parser::file_host", Q_file_host, "C04_no_panic_inventory2 (claim Q_file_host) + C04_cost_authority");
   ("url", "Parser::parse_cannot_be_a_base_path", Q_parser_tail, "C04_cost_parser_tail");
   ("url", "Parser::parse_query", Q_parser_tail, "C04_cost_parser_tail");
@@ -316,27 +326,30 @@ Proof. vm_compute. reflexivity. Qed.
 
 (* every override names exactly one row of the old table, and that row was KByType with the trivial claim; the new claim
    is not the trivial one *)
-Theorem overrides_sound :
+Definition overrides_sound_b : bool :=
   forallb (fun o =>
     Nat.eqb (length (filter (fun r => String.eqb (C04_Table.r_crate r) (o_crate o)
                                       && String.eqb (C04_Table.r_name r) (o_name o)
                                       && C04_Table.kind_eqb (C04_Table.r_kind r) C04_Table.KByType
                                       && C04_Table.claim_eqb_trivial (C04_Table.r_claim r)) C04_Table.table)) 1
-    && negb (claim2_trivial (o_claim o))) overrides = true.
+    && negb (claim2_trivial (o_claim o))) overrides.
+Theorem overrides_sound : overrides_sound_b = true.
 Proof. vm_compute. reflexivity. Qed.
 
 (* the rows that are not overridden are the rows of the old table *)
-Theorem table2_keeps :
+Definition table2_keeps_b : bool :=
   forallb (fun p => match r2_kind (snd p) with
                     | KRange => true
                     | K k => C04_Table.kind_eqb k (C04_Table.r_kind (fst p))
                              && String.eqb (r2_theorem (snd p)) (C04_Table.r_theorem (fst p))
-                    end) (combine C04_Table.table table2) = true.
+                    end) (combine C04_Table.table table2).
+Theorem table2_keeps : table2_keeps_b = true.
 Proof. vm_compute. reflexivity. Qed.
 
 (* exactly the rows of kind K KByType / K KDocumented / K KHarness carry the trivial claim *)
-Theorem kinds2_consistent :
-  forallb (fun r => Bool.eqb (trivial_kind2 (r2_kind r)) (claim2_trivial (r2_claim r))) table2 = true.
+Definition kinds2_consistent_b : bool :=
+  forallb (fun r => Bool.eqb (trivial_kind2 (r2_kind r)) (claim2_trivial (r2_claim r))) table2.
+Theorem kinds2_consistent : kinds2_consistent_b = true.
 Proof. vm_compute. reflexivity. Qed.
 
 (* the claim of every row holds *)
@@ -344,10 +357,10 @@ Theorem table2_sound : Forall (fun r => claim2 (r2_claim r)) table2.
 Proof. apply Forall_forall. intros r _. apply claims2_hold. Qed.
 
 Theorem table2_counts :
-  length table2 = 167%nat /\ length overrides = 20%nat
+  length table2 = 167%nat /\ length overrides = 21%nat
   /\ count_kind2 (K C04_Table.KTheorem) = 76%nat /\ count_kind2 (K C04_Table.KExact) = 20%nat
-  /\ count_kind2 (K C04_Table.KOutside) = 17%nat /\ count_kind2 KRange = 20%nat
-  /\ count_kind2 (K C04_Table.KByType) = 28%nat /\ count_kind2 (K C04_Table.KDocumented) = 2%nat
+  /\ count_kind2 (K C04_Table.KOutside) = 17%nat /\ count_kind2 KRange = 21%nat
+  /\ count_kind2 (K C04_Table.KByType) = 27%nat /\ count_kind2 (K C04_Table.KDocumented) = 2%nat
   /\ count_kind2 (K C04_Table.KHarness) = 4%nat.
 Proof. vm_compute. repeat split. Qed.
 
